@@ -71,3 +71,9 @@ package state
 //@   modifies nothing
 //@   ensures err == nil ==> result0 == OwnsRuntimes(id)
 //@   ensures err != nil ==> unavail(err)
+
+//@ func ImmutableState.NodeStatus
+//@   trusted
+//@   modifies nothing
+//@   ensures err == nil ==> result0 != nil && fresh(result0)
+//@   note loads and decodes the node status record (a fresh object)
